@@ -459,9 +459,14 @@ func (p *Proxy) handleConnectRequest(ctx *Context, req *http.Request, session *S
 	// Copy between the connections without intermediate write buffers, so no
 	// byte is held back. brw.Reader may already hold bytes that arrived together
 	// with the CONNECT request.
+	//
+	// The proxy's timeout bounds how long the tunnel may be idle, not how long it
+	// may be in use: bytes passing in either direction extend the deadline of the
+	// client connection.
+	touch := func() { conn.SetDeadline(time.Now().Add(p.timeout)) }
 	donec := make(chan bool, 2)
-	go copySync(cconn, brw.Reader, donec)
-	go copySync(conn, cconn, donec)
+	go copySync(cconn, activityReader{brw.Reader, touch}, donec)
+	go copySync(conn, activityReader{cconn, touch}, donec)
 
 	log.Debugf("martian: established CONNECT tunnel, proxying traffic")
 	<-donec
@@ -623,6 +628,20 @@ func (p *Proxy) handle(ctx *Context, conn net.Conn, brw *bufio.ReadWriter) error
 		closing = errClose
 	}
 	return closing
+}
+
+// An activityReader calls touch whenever a Read returns bytes.
+type activityReader struct {
+	io.Reader
+	touch func()
+}
+
+func (r activityReader) Read(b []byte) (int, error) {
+	n, err := r.Reader.Read(b)
+	if n > 0 {
+		r.touch()
+	}
+	return n, err
 }
 
 // A peekedConn subverts the net.Conn.Read implementation, primarily so that
